@@ -299,6 +299,7 @@ class SSPOR(BaseEstimator):
             )
         else:
             self.n_sensors = n_sensors
+            self._n_sensors_is_default = False
 
     def set_n_sensors(self, n_sensors):
         """
@@ -495,8 +496,11 @@ class SSPOR(BaseEstimator):
 
         # Maximum number of sensors (= dimension of basis vectors)
         max_sensors = self.basis_matrix_.shape[0]
-        if self.n_sensors is None:
+        if self.n_sensors is None or getattr(self, "_n_sensors_is_default", False):
+            # The user did not choose n_sensors: use every sensor of the data
+            # being fitted (recomputed on each fit, not frozen by the first one).
             self.n_sensors = max_sensors
+            self._n_sensors_is_default = True
         elif self.n_sensors > max_sensors:
             raise ValueError(
                 "n_sensors cannot exceed number of available sensors: {}".format(
